@@ -30,6 +30,16 @@ EXPRS = ["1", "-1", "1.5", "1e400", "0x", "0xFFFFFFFFFFFFFFFFFFFFF", "\"s\"", "'
          "fv[5]", "fv[2]", "m[1]", "m['k']", "f[2, 0]", "f[1, 3]", "f[5, 5]", "a[y:0, x:1]", "fv[0] + f[1, 2] + m['k']", "fv[zz]", "m[zz]", "u[0]", "o[0]"]
 
 
+# integer literals at the boundaries of every fixed-width integer type (and just beyond), in every place of a computed field that takes an integer
+_BOUNDARY_INTS = ["0", "1", "2", "3", "127", "128", "255", "256", "32767", "32768", "65535", "65536", "2147483647", "2147483648", "4294967295", "4294967296",
+                  "9223372036854775807", "9223372036854775808", "18446744073709551615", "18446744073709551616", "340282366920938463463374607431768211456",
+                  "-1", "-2", "-128", "-129", "-2147483648", "-2147483649", "-9223372036854775808", "-9223372036854775809", "0x7FFFFFFFFFFFFFFF", "0x8000000000000000",
+                  "0xFFFFFFFFFFFFFFFF", "0x10000000000000000", "1e19", "18446744073709551615.0"]
+_INT_PLACES = ["size(a, {N})", "size(f, {N})", "size(b, {N})", "a[{N}]", "a[{N}, 0]", "a[0, {N}]", "f[{N}, 0]", "f[0, {N}]", "b[{N}, 0]", "v[{N}]", "fv[{N}]", "m[{N}]", "{N}",
+               "a[0, 0] + {N}", "{N} as int8", "{N} as uint64", "v[0] * {N}", "size(v) + {N}", "a[x:{N}]", "a[y:{N}, x:0]", "zz ** {N}", "fv[{N}] + fv[0]"]
+EXPRS += [t.replace("{N}", n) for t in _INT_PLACES for n in _BOUNDARY_INTS]
+
+
 def mutate_text(text: str, r: random.Random) -> str:
     lines = text.split("\n")
     k = r.randrange(12)
